@@ -3,6 +3,7 @@ package main
 import (
 	"fmt"
 	"go/types"
+	"runtime"
 	"sort"
 	"strings"
 
@@ -387,6 +388,9 @@ func (e *Exec) evalSpecSafe(env *Env, x *SExpr, con *Contract, what string) (v V
 		if r := recover(); r != nil {
 			if se, ok := r.(specError); ok {
 				panic(contractError{fmt.Sprintf("%s:%d: %s of %s: %s", con.File, con.Line, what, con.RawName, se.msg)})
+			}
+			if re, ok := r.(runtime.Error); ok {
+				panic(contractError{fmt.Sprintf("%s:%d: %s of %s: cannot evaluate %s (%v)", con.File, con.Line, what, con.RawName, x, re)})
 			}
 			panic(r)
 		}
